@@ -419,7 +419,7 @@ type RunOpts struct {
 }
 
 // FinalPassNames lists the built-in passes workloads may use as final passes.
-var FinalPassNames = []string{"InlineObjectsWithTypes", "AnonymousStructsToNamed", "DisjunctionToType", "NotRequiredFieldAsNullableType",
+var FinalPassNames = []string{"PrefixObjectNames", "InlineObjectsWithTypes", "AnonymousStructsToNamed", "DisjunctionToType", "NotRequiredFieldAsNullableType",
 	"FlattenDisjunctions", "DisjunctionOfAnonymousStructsToExplicit", "AnonymousEnumToExplicitType", "DisjunctionWithNullToOptional", "PrefixEnumValues"}
 
 func buildFinalPasses(names []string) compiler.Passes {
@@ -444,6 +444,8 @@ func buildFinalPasses(names []string) compiler.Passes {
 			out = append(out, &compiler.DisjunctionWithNullToOptional{})
 		case "PrefixEnumValues":
 			out = append(out, &compiler.PrefixEnumValues{})
+		case "PrefixObjectNames":
+			out = append(out, &compiler.PrefixObjectNames{Prefix: "Acme"})
 		}
 	}
 	return out
